@@ -88,6 +88,15 @@ def _try_to_reorder(
             *args,
             **kwargs
             ) -> _Ret:
+        # An iterator would be exhausted by
+        # the first attempt, and the attempt
+        # after reordering would see it empty.
+        args = tuple(
+            list(a) if isinstance(a, _abc.Iterator) else a
+            for a in args)
+        kwargs = {
+            k: list(v) if isinstance(v, _abc.Iterator) else v
+            for k, v in kwargs.items()}
         with _ReorderingContext(bdd):
             return func(
                 bdd,
